@@ -39,6 +39,11 @@ def builder_check(res, rt, rng, tier, lean_ok):
                 fields.append("l" + C.hexs(rng.choice(TEXTS)))
             elif r < 8:
                 fields.append("f")
+            elif r == 8 and rng.chance(1, 2):
+                # the same kind of text written in several `write_str` calls (label, multi-line value, empty write, ...): the
+                # indentation adapter must not depend on how the text is chunked (the models see the text, not the chunks)
+                chunks = [rng.choice(TEXTS + ["notes: ", "k=", " ", "first\nsecond\nthird", "\n\n", "x\n"]) for _ in range(2 + rng.below(3))]
+                fields.append("m" + "~".join(C.hexs(c) if c else "-" for c in chunks)); model_ok = False
             elif r == 8:
                 fields.append(f"i{rng.below(300)}"); model_ok = False
             else:
